@@ -4,7 +4,13 @@ import GitBugModel.Model.Identity
 namespace Driver.C09
 open Lean Driver GitBugModel.Identity
 
-def versionOf (j : Json) : Version :=
+/-- when the texts themselves are given, their safety is decided by the model -/
+def withTextsOf (j : Json) (v : Version) : Version :=
+  match getStr? j "name", getStr? j "login", getStr? j "email" with
+  | some n, some l, some e => v.withTexts n.toList l.toList e.toList
+  | _, _, _ => v
+
+def versionOf0 (j : Json) : Version :=
   { commit := getStr j "commit",
     times := (getArr j "times").filterMap (fun p => match p with
       | Json.arr #[Json.str a, b] => (b.getNat?.toOption).map (fun n => (a, n))
@@ -13,6 +19,8 @@ def versionOf (j : Json) : Version :=
     nameSafe := getBool j "nameSafe", loginSafe := getBool j "loginSafe", emailSafe := getBool j "emailSafe",
     avatarOk := getBool j "avatarOk", nonceLen := getNat j "nonceLen", keysOk := getBool j "keysOk",
     keys := strArr j "keys" }
+
+def versionOf (j : Json) : Version := withTextsOf j (versionOf0 j)
 
 def chain (j : Json) (k : String) : List Version := (getArr j k).map versionOf
 
@@ -29,6 +37,12 @@ def handle (j : Json) : Json :=
     | .merged (.updated vs ref) => Json.mkObj [("res", "updated"), ("chain", jstrs (vs.map (·.commit))), ("ref", ref)]
     | .merged (.nothing vs) => Json.mkObj [("res", "nothing"), ("chain", jstrs (vs.map (·.commit))), ("ref", "")]
     | .merged (.nonFastForward vs) => Json.mkObj [("res", "nonFF"), ("chain", jstrs (vs.map (·.commit))), ("ref", "")]
+  | "text" =>
+    jarr ((strArr j "strings").map fun s =>
+      let l := s.toList
+      Json.mkObj [("safe", Json.bool (GitBugModel.Text.safe l)), ("safeOneLine", Json.bool (GitBugModel.Text.safeOneLine l)),
+        ("cleanup", Json.str (String.ofList (GitBugModel.Text.cleanup l))),
+        ("cleanupOneLine", Json.str (String.ofList (GitBugModel.Text.cleanupOneLine l)))])
   | "validate" => Json.mkObj [("valid", Json.bool (validate (chain j "versions")))]
   | "keysAt" =>
     let vs := chain j "versions"
